@@ -136,7 +136,16 @@ def run_case(case):
             if st in ('normal', 'bypass') and not ({0, 1} & used) and rng.random() < 0.15:
                 pref = 0                      # address 0 is a legal (and falsy) address
                 used.update((0, 1))
-            ca = W.ca(node, pref, name_value=nv, bypass=(st == 'bypass'))
+            if rng.random() < 0.2:
+                # an application class that overrides the public message_acceptable() hook to receive every data message: requests are still
+                # a matter of who owns the destination address
+                class AcceptAll(j.ControllerApplication):
+                    def message_acceptable(self, dest_address):
+                        return True
+                ca = AcceptAll(j.Name(value=nv), pref, st == 'bypass')
+                node.ecu.add_ca(controller_application=ca)
+            else:
+                ca = W.ca(node, pref, name_value=nv, bypass=(st == 'bypass'))
             rec = dict(ca=ca, node=node, want=st, pref=pref, held=None, name=nv, calls=[], label='S%d.ca%d' % (si, ci))
             # one or two request subscribers; a third one is registered and removed again before any request arrives
             rec['nsubs'] = rng.choice([1, 1, 2])
@@ -277,6 +286,9 @@ def run_case(case):
                              % (c['label'], c['want'], c['held'], pgn, src, d, got, exp),
                              how='missing' if len(got) < len(exp) else ('extra' if len(got) > len(exp) else 'args'), **tag)
 
+    if rng.random() < 0.4:
+        # the requesting application is in the middle of a broadcast of its own (150 ms) while it sends its requests
+        W.call('own_bam', req.send_pgn, 0, 0xFE, 0xF1, 6, [rng.randrange(256) for _ in range(20)])
     for d in dests:
         for pgn in rng.sample(pgns, 12) + [0xEE00, 0xFECA]:
             one_request('ca', pgn, d)
